@@ -140,7 +140,29 @@ func (g *gm) droppable(call *ast.CallExpr) bool {
 	if src == "cancel" && len(call.Args) == 0 { // `defer cancel()` of a context.WithTimeout
 		return true
 	}
-	for _, frag := range []string{".log.", ".Logger.", ".logger.", ".mu.Lock", ".mu.Unlock", ".mu.RLock", ".mu.RUnlock", ".Mutex.", ".RWMutex.",
+	// `s.Lock()` / `defer s.RUnlock()` on a variable whose type embeds the mutex (segment, index)
+	if sel, ok := call.Fun.(*ast.SelectorExpr); ok && len(call.Args) == 0 {
+		if _, isId := sel.X.(*ast.Ident); isId {
+			switch sel.Sel.Name {
+			case "Lock", "Unlock", "RLock", "RUnlock":
+				return true
+			}
+		}
+	}
+	// logging: a call THROUGH a field named log / Logger / logger whose method is a logging verb. (`p.log` of a partition is its
+	// commit log: `p.log.SetHighWatermark(…)` is no logging call. Until session 4 every call through a `.log.` field was dropped;
+	// no translated unit contained one that was not a logging call.)
+	if sel, ok := call.Fun.(*ast.SelectorExpr); ok {
+		for _, frag := range []string{".log.", ".Logger.", ".logger."} {
+			if strings.Contains(src, frag) {
+				switch sel.Sel.Name {
+				case "Debugf", "Infof", "Warnf", "Errorf", "Fatalf", "Debug", "Info", "Warn", "Error", "Fatal", "Printf", "Println", "Tracef":
+					return true
+				}
+			}
+		}
+	}
+	for _, frag := range []string{".mu.Lock", ".mu.Unlock", ".mu.RLock", ".mu.RUnlock", ".Mutex.", ".RWMutex.",
 		"Mu.Lock", "Mu.Unlock", "Mu.RLock", "Mu.RUnlock"} {
 		if strings.Contains(src, frag) {
 			return true
@@ -265,6 +287,20 @@ func (g *gm) expr(e ast.Expr) string {
 			return "(.call " + g.bad("?map literal", x) + " [])"
 		}
 		var fs []string
+		// T{a, b, c}: a record whose fields are named by position ("·0", "·1", …) - the declared names are unknown without
+		// types, so a selector on such a value is stuck (never silently wrong); it can be passed on and compared
+		positional := len(x.Elts) > 0
+		for _, el := range x.Elts {
+			if _, kv := el.(*ast.KeyValueExpr); kv {
+				positional = false
+			}
+		}
+		if positional {
+			for i, el := range x.Elts {
+				fs = append(fs, "("+strconv.Quote(fmt.Sprintf("·%d", i))+", "+g.expr(el)+")")
+			}
+			return "(.lit [" + strings.Join(fs, ", ") + "])"
+		}
 		for _, el := range x.Elts {
 			kv, ok := el.(*ast.KeyValueExpr)
 			if !ok {
@@ -957,6 +993,10 @@ func genGoMiniAll() []*leanFile {
 		[]string{cl + "commitlog.go"},
 		map[string][]string{cl + "commitlog.go": {"commitLog.EarliestOffsetAfterTimestamp", "commitLog.LatestOffsetBeforeTimestamp"}},
 		clConsts)})
+	out = append(out, &leanFile{name: "GoSplit", raw: genGoMini("GoSplit",
+		[]string{cl + "commitlog.go", cl + "segment.go"},
+		map[string][]string{cl + "commitlog.go": {"commitLog.checkAndPerformSplit"}, cl + "segment.go": {"segment.CheckSplit", "segment.NextOffset"}},
+		clConsts)})
 	out = append(out, &leanFile{name: "GoHWPos", raw: genGoMini("GoHWPos",
 		[]string{cl + "reader.go"},
 		map[string][]string{cl + "reader.go": {"getHWPos"}},
@@ -972,6 +1012,10 @@ func genGoMiniAll() []*leanFile {
 		[]string{sv + "partition.go"},
 		map[string][]string{sv + "partition.go": {"replica.updateLatestOffset", "replica.resetLatestOffset", "replica.getLatestOffset",
 			"partition.updateISRLatestOffset", "min", "minInt64"}},
+		[]string{sv + "partition.go"})})
+	out = append(out, &leanFile{name: "GoReplication", raw: genGoMini("GoReplication",
+		[]string{sv + "partition.go"},
+		map[string][]string{sv + "partition.go": {"partition.handleReplicationRequest", "partition.handleReplicationResponse", "partition.handleLeaderOffsetRequest", "minInt64"}},
 		[]string{sv + "partition.go"})})
 	out = append(out, &leanFile{name: "GoFailover", raw: genGoMini("GoFailover",
 		[]string{sv + "failover.go", sv + "partition.go"},
